@@ -153,7 +153,9 @@ func (c13) Eval(t *testing.T, c *Case, dec func(int) *Decider) *Outcome {
 	check := func(label string) {
 		for _, rr := range readRaceReports() {
 			if rr.Harness {
-				o.viol(prop, "harness", "harness-race", "race report without two csvq stacks (harness trouble):\n"+rr.Text)
+				// a race inside the simulator is infrastructure trouble (exit 2), never a
+				// statement about csvq
+				o.Infra = append(o.Infra, "race report without two csvq stacks (harness trouble):\n"+rr.Text)
 				continue
 			}
 			o.viol(prop, "data-race", rr.Sig, fmt.Sprintf("data race during %s:\n%s", label, rr.Text))
